@@ -107,12 +107,15 @@ func (s *Server) typecheck(ctx context.Context, uri lsp.DocumentURI, version uin
 
 	_, err := compiler.Compile(ctx, uri.Filename(), content, compiler.Params{CheckOnly: true, Verbose: true})
 	for _, p := range status.FromError(err) {
-		rng, _, _ := strings.Cut(content[p.Origin.Offset:p.Origin.EndOffset], "\n")
+		o := p.Origin
+		var start lsp.Position // errors without an origin are reported at the beginning of the file
+		if o.Line > 0 && o.Column > 0 {
+			start = lsp.Position{Line: uint32(o.Line - 1), Character: utf16Len(content, o.Offset-(o.Column-1), o.Offset)}
+		}
+		rng, _, _ := strings.Cut(content[o.Offset:o.EndOffset], "\n")
+		end := lsp.Position{Line: start.Line, Character: start.Character + utf16Len(content, o.Offset, o.Offset+len(rng))}
 		res = append(res, lsp.Diagnostic{
-			Range: lsp.Range{
-				Start: lsp.Position{Line: uint32(p.Origin.Line - 1), Character: uint32(p.Origin.Column - 1)},
-				End:   lsp.Position{Line: uint32(p.Origin.Line - 1), Character: uint32(p.Origin.Column - 1 + len(rng))},
-			},
+			Range:    lsp.Range{Start: start, End: end},
 			Severity: lsp.DiagnosticSeverityError,
 			Message:  p.Msg,
 			Source:   "textmapper",
@@ -209,15 +212,35 @@ func (id id) Kind() int {
 
 func (id id) Location(uri lsp.DocumentURI) lsp.Location {
 	line, col := id.Node.LineColumn()
+	content := id.Node.Tree().Text()
 
-	// Note: this function does not handle Unicode correctly
+	// LSP positions are expressed in UTF-16 code units.
+	start := utf16Len(content, id.Offset()-(col-1), id.Offset())
+	end := start + utf16Len(content, id.Offset(), id.Endoffset())
 	return lsp.Location{
 		URI: uri,
 		Range: lsp.Range{
-			Start: lsp.Position{Line: uint32(line - 1), Character: uint32(col - 1)},
-			End:   lsp.Position{Line: uint32(line - 1), Character: uint32(col - 1 + len(id.Node.Text()))},
+			Start: lsp.Position{Line: uint32(line - 1), Character: start},
+			End:   lsp.Position{Line: uint32(line - 1), Character: end},
 		},
 	}
+}
+
+// utf16Len returns the number of UTF-16 code units that encode content[from:to].
+func utf16Len(content string, from, to int) uint32 {
+	var n uint32
+	for from < to {
+		r, w := utf8.DecodeRuneInString(content[from:])
+		if w == 0 {
+			break
+		}
+		n++
+		if r > 0xffff {
+			n++
+		}
+		from += w
+	}
+	return n
 }
 
 func collectIDs(ctx context.Context, filename, content string) []id {
